@@ -27,6 +27,9 @@ CHECKS = {
  "C05": dict(design="3/C05", technique="differential property-based testing (Hypothesis): every row of a generated batch vs the same molecule alone; same-element transposition as a metamorphic relation; short MD trajectories alone vs batched",
              text="Generated batches of 2-4 molecules of different size, composition and charge (RHF or UHF), random order, extra padding width 0-3, padding coordinates zero / random / 1e6 / coincident with a real atom, 4 methods, fixed / adaptive / Pulay / SP2, three force evaluators, optional CIS: Etot, Hf, forces, charges, orbital energies, dipole and CIS energies of each row must equal the single-molecule result (1e-9 for fixed/adaptive mixing; measured 1e-10). Transposing two atoms of the same element must permute per-atom outputs exactly. 5-8 step BOMD and XL-BOMD trajectories with explicit velocities must agree alone vs batched (measured 2e-13). Exploration.",
              note="Langevin and surface hopping are not compared path-wise (one noise stream over the whole batch tensor). Two recorded known findings: Pulay's batch-global DIIS restart (another SCF solution), heterogeneous CIS replacing a non-positive root by a padding zero."),
+ "C13": dict(design="3/C13", technique="property-based testing (Hypothesis) of the real MD initialisation / COM-removal / seeding code over a stub force field; differential runs for seeding (same seed with different prior RNG consumption, different seeds)",
+             text="Generated zero-padded batches of bent, linear, diatomic and single-heavy-atom molecules x temperatures incl. 0 K x seeds x prior RNG consumption x remove_com modes and strides x BOMD / Langevin x optional user-supplied velocity fields (random, pure translation, pure rotation, zero, non-zero on padding). Oracles from step-0 HDF5 rows and the live molecule: exact initial temperature under the n_dof in force, zero linear (and requested angular) momentum, padding at rest, bitwise reproducibility of a seed regardless of RNG history, different seeds differ, user velocities used as given. Exploration, ~1600 cases per quick run.",
+             note="Force field is an analytic stub (the property concerns initialisation code only); temperature identity uses the repository's own unit constants. Four recorded findings: user velocities passed through COM removal, diatomic + angular removal gives n_dof = 0, padding atoms acquire velocities (repair candidate under test)."),
 }
 NOT_APPLICABLE = []
 def main():
